@@ -139,7 +139,7 @@ structure Core (pt : PTable) (m : Model) (sg : Subgraph) (info : TInfo) (ins : I
 
 theorem instOK_of_core (pt : PTable) (m : Model) (s : Nat) (sg : Subgraph) (t : Nat) (ins : Inst)
     (hsg : SgOK m sg) (ht : t < sg.tensors.length)
-    (href : 0 ≤ (tensorInfo s sg t).producer ∨ (tensorInfo s sg t).consumers ≠ [])
+    (href : 0 ≤ (tensorInfo s sg t).producer ∨ (tensorInfo s sg t).consumers ≠ [] ∨ (t : Int) ∈ sg.inputs)
     (hc : Core pt m sg (tensorInfo s sg t) ins) : InstOK pt m sg ins := by
   have hcons := (tensorInfo_consumers s sg t).1
   have hprod := tensorInfo_producer s sg t
@@ -177,12 +177,13 @@ theorem instOK_of_core (pt : PTable) (m : Model) (s : Nat) (sg : Subgraph) (t : 
         rintro k ⟨j, o, _, hj, hmem⟩
         exact hno j o hj hmem
       have hsome : ∃ k, Avail m sg k t := by
-        rcases href with h0 | hne
+        rcases href with h0 | hne | hin
         · omega
         · obtain ⟨c, hcm⟩ := List.exists_mem_of_ne_nil _ hne
           rcases hcons c hcm with ⟨_, hout⟩ | ⟨k, o, _, hk, hmem⟩
           · exact ⟨_, hsg.outsAvail _ hout⟩
           · exact ⟨k, availAt k o hk hmem⟩
+        · exact ⟨0, .inl hin⟩
       obtain ⟨k, hk⟩ := hsome
       rcases hk with hk | hk | hk
       · exact .inl hk
